@@ -16,7 +16,14 @@ Certain(tp, h) == /\ Prec(h) < Hole(tp)
                   /\ ~(tp = <<"between", "lo">>)                     \* closed by the `and` of between
                   /\ ~(tp = <<"between", "a">> /\ h.n = "between")
 
-Case(t, drop) == [tree |-> t, full |-> RenderFull(t), min |-> RenderMin(t), wrapmin |-> RenderWrapMin(t)] @@ (IF drop THEN [nopar |-> RenderNoPar(t)] ELSE [nodrop |-> TRUE])
+\* The name of a type that is not built in may itself contain the additional name symbols, and the parser has no list
+\* of type names to match against: a rendering in which such a name is directly followed by one of those symbols has
+\* no single reading, and the fully parenthesised one is used in its place (keywords cannot be part of a name: they
+\* do end it).
+Amb(toks) == \E i \in 1..(Len(toks) - 1) : toks[i] = "~tX" /\ toks[i + 1] \in {"+", "-", "*", "/", "**", "..", "."}
+Unamb(toks, t) == IF Amb(toks) THEN RenderFull(t) ELSE toks
+Case(t, drop) == [tree |-> t, full |-> RenderFull(t), min |-> Unamb(RenderMin(t), t), wrapmin |-> Unamb(RenderWrapMin(t), t)]
+                 @@ (IF drop /\ ~Amb(RenderNoPar(t)) THEN [nopar |-> RenderNoPar(t)] ELSE [nodrop |-> TRUE])
 
 Pairs == {Case(Fill(tp, h), Certain(tp, h)) : tp \in Templates, h \in Inner}
 Trip  == IF Triples = "none" THEN {}
